@@ -90,6 +90,8 @@ trait MacroJson {
     fn shape(&self) -> Result<Shape, Error>;
     #[endpoint(method = GET, path = "/m/shapes", accept = ConjureResponseDeserializer)]
     fn shapes(&self) -> Result<Vec<Shape>, Error>;
+    #[endpoint(method = GET, path = "/m/token", accept = ConjureResponseDeserializer)]
+    fn token(&self) -> Result<conjure_object::BearerToken, Error>;
 }
 
 #[conjure_http::conjure_client]
@@ -106,6 +108,8 @@ trait AsyncMacroJson {
     async fn shape(&self) -> Result<Shape, Error>;
     #[endpoint(method = GET, path = "/m/shapes", accept = ConjureResponseDeserializer)]
     async fn shapes(&self) -> Result<Vec<Shape>, Error>;
+    #[endpoint(method = GET, path = "/m/token", accept = ConjureResponseDeserializer)]
+    async fn token(&self) -> Result<conjure_object::BearerToken, Error>;
 }
 
 fn show(r: Result<String, Error>) -> String {
@@ -143,7 +147,14 @@ struct Doc {
     not_of: &'static str,
 }
 
-const DOCS: [Doc; 22] = [
+const DOCS: [Doc; 28] = [
+    // bearer tokens: padding (`=`) only at the end
+    Doc { text: "\"abc\"", of: "t", not_of: "" },
+    Doc { text: "\"a.b-c_d~e+f/g==\"", of: "t", not_of: "" },
+    Doc { text: "\"=abc\"", of: "t", not_of: "t" },
+    Doc { text: "\"==abc==\"", of: "t", not_of: "t" },
+    Doc { text: "\"a=bc\"", of: "t", not_of: "t" },
+    Doc { text: "\"=\"", of: "t", not_of: "t" },
     Doc { text: "7", of: "i", not_of: "" },
     Doc { text: "-2147483648", of: "i", not_of: "" },
     Doc { text: "{\"a\":1,\"b\":\"x\"}", of: "s", not_of: "" },
@@ -246,6 +257,10 @@ pub fn add(cs: &mut Cases, rng: &mut Rng, tier: Tier) {
                 if d.of.contains('u') {
                     let bad = d.not_of.contains('u');
                     one::<Shape>(cs, "macro shape -> union", Kind::Ser, &sc, bad, |s| MacroJsonClient::new(s.clone()).shape().map(val_nd), |s| block_on(AsyncMacroJsonClient::new(s.clone()).shape()).map(val_nd));
+                }
+                if d.of.contains('t') {
+                    let bad = d.not_of.contains('t');
+                    one::<conjure_object::BearerToken>(cs, "macro token -> bearertoken", Kind::Ser, &sc, bad, |s| MacroJsonClient::new(s.clone()).token().map(val_nd), |s| block_on(AsyncMacroJsonClient::new(s.clone()).token()).map(val_nd));
                 }
                 if d.of.contains('z') {
                     one::<BTreeSet<i32>>(cs, "generated optAliasBody -> set<integer>", Kind::DefSer, &sc, false, |s| gs(s).opt_alias_body(&OptObjAlias(None)).map(|v| val(s.status, v)), |s| block_on(ga(s).opt_alias_body(&OptObjAlias(None))).map(|v| val(s.status, v)));
